@@ -21,6 +21,7 @@ from ..astutil import call_name, calls, dotted, names_in, param_names, stmts, wa
 from ..core import AnalysisError, Mutant
 from ..exprnorm import same_expr, summarize_block
 from ..program import ClassIndex
+from ..exprnorm import has_code
 
 EXPLANATION = (
     "Position/index unit inference over the methods of AnnotatedSequence, evaluation of the "
